@@ -176,6 +176,51 @@ func c04Gen(r *Rand, tier string, i int) Scenario {
 		h := r.Intn(200)
 		sc.Stalls = append(sc.Stalls, StallSpec{Name: "consumer.single", Site: siteStdoutLock, Suffix: "/lock", From: h, To: h + 1, DurMs: PickOf(r, 200, 2000)})
 	}
+	if !smallMLL && (r.Bool(0.05) || os.Getenv("VERIF_C04_OVERFLOW") != "") {
+		// a slight overflow after a long quiet stretch: 200-330 lines delivered
+		// without loss, then the consumer pauses once while a burst of a little
+		// more than the queues hold is written, so that only a handful of lines is
+		// dropped among hundreds delivered (a transmission rate of 99.x %)
+		sc.Regex, sc.KeepEvery = false, 1
+		// (serverless: over SSH the 2 MiB channel window absorbs any such burst;
+		// there the queues hold 98-100 lines)
+		sc.Transport = "serverless"
+		a := PickOf(r, r.Range(200, 330), r.Range(400, 900))
+		burst := 97 + r.Intn(9)
+		if r.Bool(0.2) {
+			burst = 100 + r.Intn(130)
+		}
+		tail := r.Range(3, 12)
+		cf := C04File{Initial: PickOf(r, 0, 5)}
+		for k := 0; k < a+burst+tail; k++ {
+			cf.LineLens = append(cf.LineLens, 20)
+		}
+		tmp := &C04Scenario{Regex: sc.Regex, KeepEvery: sc.KeepEvery, Cfg: sc.Cfg, Files: []C04File{cf}}
+		lens := []int{}
+		for _, ln := range tmp.appendLines(0) {
+			lens = append(lens, len(ln)+1)
+		}
+		sum := func(from, to int) int {
+			t := 0
+			for _, l := range lens[from:to] {
+				t += l
+			}
+			return t
+		}
+		for k := 0; k < a; k += 10 {
+			e := k + 10
+			if e > a {
+				e = a
+			}
+			cf.Writes = append(cf.Writes, C04Write{DelayMs: 20, Len: sum(k, e)})
+		}
+		cf.Writes = append(cf.Writes, C04Write{DelayMs: 60, Len: sum(a, a+burst)})
+		cf.Writes = append(cf.Writes, C04Write{DelayMs: 3000, Len: sum(a+burst, a+burst+tail)})
+		sc.Files = []C04File{cf}
+		// (the client's stdout logger is entered twice per record)
+		h := 2*a - r.Intn(8)
+		sc.Stalls = []StallSpec{{Name: fmt.Sprintf("consumer.single(a=%d,burst=%d)", a, burst), Site: siteStdoutLock, Suffix: "/lock", From: h, To: h + 1, DurMs: 2000}}
+	}
 	if sc.Transport == "ssh" {
 		sc.Net = genNetProfile(r)
 		if sc.Net.ChunkMax > 0 && sc.Net.ChunkMax < 64 {
@@ -432,6 +477,9 @@ func c04Run(t *testing.T, s Scenario, src verifsim.DecisionSource, keep bool) *R
 	cls, msg, drops := c04Oracle(sc, truth, stdout)
 	res.Class, res.Message = cls, msg
 	res.Info["drops"] = drops
+	if os.Getenv("VERIF_C04_OVERFLOW") != "" {
+		fmt.Fprintf(os.Stderr, "OVERFLOW drops=%d stalls=%v writes=%d transport=%s start=%d sched=%+v\n", drops, sc.Stalls, len(sc.Files[0].Writes), sc.Transport, sc.StartMs, sc.Sched)
+	}
 	if drops > 0 {
 		res.Probes = addProbe(res.Probes, "tail.lines-dropped-with-indication", drops)
 	}
